@@ -57,6 +57,9 @@ CLAIMED['C11'] = ('irsym+ir2c', 'engine C (exact reals, sin/cos pairs, mechanica
 CLAIMED['C10'] = ('irsym', 'engine C: bounded symbolic execution of the clang IR over the exact reals, unit-quaternion constraint r^2+|v|^2=1, sqrt witnesses, sin/cos pairs with mechanically instantiated half-angle identities; z3',
     'For ALL unit quaternions and vectors: toMatrix33/toMatrix44 hold the documented orthonormal det +1 rotation, rotateVector(v) == v*q == v*toMatrix33(), toMatrix33(q1*q2) == toMatrix33(q2)*toMatrix33(q1), q*inverse(q) == 1, inverse/invert/conjugate/normalize(d) formulas, Quat::setAxisAngle builds the same Rodrigues rotation as Matrix44::setAxisAngle for every non-zero axis, extractQuat(q.toMatrix44()) is +-q on every branch (budgeted), setRotation(from,to) in the thorough tier.',
     ENGC_NOTE + ' slerp/squad/spline, exp/log and angle()/axis() are not decided.', '3/C10')
+CLAIMED['C19'] = ('ir2c', 'bounded model checking (CBMC) of the clang IR of PyImath::FixedArray<int> (compiled against the real Python.h / boost.python headers) translated to C, array objects built as arbitrary valid struct state; counterexamples replayed through an embedded-CPython driver on the real headers',
+    'From EVERY valid FixedArray<int> state up to the bound (length 0..3, stride 1..2, writable or not, direct or masked with arbitrary increasing mask indices, arbitrary contents; 4 in the thorough tier): integer indexing incl. negative and out-of-range indices, slice assignment against CPython\'s own PySlice_AdjustIndices semantics, array and mask assignment with length checks, every writer entry point on a read-only array (operator[], direct_index, setitem_*, Writable{Direct,Masked}Access) raises and leaves the data unchanged, accessor classes, match_dimension, makeReadOnly; every memory access is inside the exactly-sized backing store (CBMC bounds and pointer checks).',
+    'Trusted: clang-14, vf/ll2c.py, CBMC. CPython/boost externals are stubs listed in the evidence (PySlice_AdjustIndices is a transcription of CPython\'s algorithm). No translator validation for this TU (pointer-rich objects); instead every counterexample is replayed natively with real Python objects. View lifetimes, StringTable, FixedVArray/2D/Matrix, getslice allocation and the buffer protocol are not decided.', '3/C19')
 NOT_YET = 'check not built yet in this working session (planned in DESIGN.md section 3); no claim is made'
 NA = {}
 
